@@ -111,7 +111,7 @@ def to_trace(evs):
         elif k == "conv": out.append(dict(e="conv", key="%s|%d|%d" % (e["src"], e["fmt"], e["ext"]), digest=e["digest"], allocs=e["allocs"], null=e["null"],
                                           pslabs=e["pslabs"], pnext=e["pnext"]))
         elif k == "eng": out.append(dict(e="eng", op=e["op"], eid=e.get("eid", 0), allocs=e.get("allocs", 0), pslabs=e.get("pslabs", -1), pnext=e.get("pnext", -1)))
-        elif k == "inspect": out.append(dict(e="inspect", eid=e["eid"], tokens=e["tokens"], sum=e["sum"]))
+        elif k == "inspect": out.append(dict(e="inspect", eid=e["eid"], tokens=e["tokens"], sum=e["sum"], dirty=e.get("dirty", 0)))
     return out
 
 
